@@ -22,7 +22,7 @@ GotPairs == {<<C.records[k].d, C.records[k].a>> : k \in 1..Len(C.records)}
 FusionPeptides(d, a) ==
   LET dn == DonorSeq(C.chrom, C.dtx[d], C.lb)
       s == dn \o AcceptorSeq(C.chrom, C.atx[a], C.rb)
-      starts == IF C.dinfo[d].coding THEN {C.dinfo[d].orfStart} ELSE {x \in AtgStarts(s) : x <= Len(dn)}   \* the start codon may begin with the first acceptor base
+      starts == IF C.dinfo[d].coding THEN {C.dinfo[d].orfStart} ELSE AtgStarts(s)   \* any start of the fused sequence (the property only asks for a digestion product of it)
   IN UNION {LET o == OrfOf(s, x, {}) IN OrfPeptides(o.pep, C.cfg, TRUE, o.open, FALSE) : x \in starts}
 
 Verdict ==
